@@ -171,7 +171,7 @@ CONFIGS = {
     "quick": [("TableIntQ.cfg", None, 2), ("TableMixQ.cfg", None, 2), ("TableStrQ.cfg", None, 1), ("TableSim.cfg", "num=300", 1), ("TableBigSim.cfg", "num=80", 1),
               ("TableExtQ.cfg", None, 1), ("TableExtSim.cfg", "num=150", 1), ("TableCloEqQ.cfg", None, 1), ("TableCloNeQ.cfg", None, 1),
               ("TableBigCloEqSim.cfg", "num=40", 1), ("TableBigCloNeSim.cfg", "num=40", 1)],
-    "thorough": [("TableIntT.cfg", None, 3), ("TableMixT.cfg", None, 3), ("TableStrQ.cfg", None, 3), ("TableSim.cfg", "num=6000", 2), ("TableBigSim.cfg", "num=3000", 2),
+    "thorough": [("TableIntT.cfg", None, 1), ("TableMixT.cfg", None, 2), ("TableStrQ.cfg", None, 3), ("TableSim.cfg", "num=6000", 2), ("TableBigSim.cfg", "num=3000", 2),
                  ("TableExtQ.cfg", None, 2), ("TableExtSim.cfg", "num=3000", 1), ("TableCloEqQ.cfg", None, 2), ("TableCloNeQ.cfg", None, 2),
                  ("TableBigCloEqSim.cfg", "num=1000", 1), ("TableBigCloNeSim.cfg", "num=1000", 1)],
 }
@@ -247,7 +247,7 @@ def run(prop, tier):
                 process(buf[:])
                 del buf[:]
 
-        res = run_tlc("TableMC", cfg, timeout=3000, on_line=on_line, simulate=sim, depth=ms if sim else None,
+        res = run_tlc("TableMC", cfg, timeout=7000, on_line=on_line, simulate=sim, depth=ms if sim else None,
                       workers=1 if sim else None)
         if res.violation:
             raise Infra("TableAbs TLC run failed on %s: %s" % (cfg, res.violation))
